@@ -421,3 +421,14 @@ func normalizeNum(v string) string {
 	}
 	return v
 }
+
+func (V *Verifier) ispow2Prelude() {
+	if V.preludeSeen["ispow2"] {
+		return
+	}
+	var ds []string
+	for k := uint(0); k < 64; k++ {
+		ds = append(ds, "(= x "+pow2(k).String()+")")
+	}
+	V.addPrelude("ispow2", "(define-fun g_ispow2 ((x Int)) Bool (or "+strings.Join(ds, " ")+"))")
+}
